@@ -173,6 +173,18 @@ Wave 3 (loops; groups `line` `fold` `text` -> Gen/BodiesLine.lean, BodiesFold.le
                instance tests on unions as boolean expressions; an and-chain with an operand already decided false is false.
                `return NotImplemented` (None of an optional bool).  `s.isdigit()` (ASCII), `__new__` (first parameter `cls`).
                A method that is REMOVED from the source makes the translation fail (`function .. not found`).
+  wave 8       Python SETS built imperatively: `set()` (element type declared), `.add` / `.update(list)` / `.discard`, `s - {None}`;
+               a set is NEVER iterated (`for x in s` is refused: the order is unspecified), only `sorted(s)` lets its elements out
+               (`sorted` of str: code-point order; `sorted(xs, key=lambda k: E)` with an int key: keys first, then a stable sort).
+               A group may call another group's functions (GROUP_USES); a method is looked up in the class, else in its single
+               base class of the same file; a callee's default `lambda c: True`; a method that changes `self` through a declared
+               'mut' external returns the tree it leaves.  `{k: i for i, k in enumerate(xs)}`, `k in d`, `d[k]` (KeyError),
+               `[k for k in xs if C]`, `x or []`, `list(x)`.  `*args` / `**kwargs` when declared; whole call statements that change
+               `self` ('selfstmt'); iteration of an opaque object through a declared parameter (`'for <name>'`).  A generator bound
+               to a name that only the `return sep.join(name)` right after it consumes.  FRAGMENT by marker ({'after': text,
+               'result': names}); `[E for a, b, _ in xs]` / `for i, (a, b, ..) in enumerate(xs)` over tuples, `xs[i]`, `t[k]`;
+               nested loops with their own break (group tz); a local that is `False` or an int (`FalseOrInt`: Option Int) and
+               `assert x is not False` on it, which IS evaluated (AssertionError).
   parameters   the order of the generated parameters follows their first use in the source: apply the definitions BY NAME
                (`f (last_ack := ..) (snooze_until := ..)`), never positionally - two parameters of one type could
                otherwise change places together with the source and no proof or test would notice.
